@@ -5,10 +5,17 @@
 //! by the server's own `handle_command` are parsed with the client's own code path
 //! (`is_v1_mime_response` → `parse_v1_mime_to_bpsv` | `BpsvDocument::parse`) and every field
 //! of every row must equal the record of the newest build.
+//! Both V1 parsers of the project are "this project's own client code": the one `RibbitClient`
+//! uses (`mime_parser`) and the signature-aware public one (`v1_mime::is_v1_mime_response` →
+//! `v1_mime::parse_v1_mime_response`); every response goes through both. `v1/summary` must list
+//! exactly the products of the database. Several builds per product: every ordered pair of
+//! dates from a grid over months, month ends, leap days and year changes, judged against an
+//! independent calendar (day counting by loops).
 //! (B) the real pair over loopback (`tcp::start_server`, `http::start_server`; `RibbitClient`,
 //! `TactClient`) for a spanning subset of databases and for every request-line class from
 //! 1–2 misbehaving clients in every arrival order while a well-formed client must still be
-//! answered.
+//! answered; plus every well-formed request line delivered in two TCP segments (every cut
+//! position, the server runs in between) through a raw socket.
 
 use crate::report::{Level, Report, Tier};
 use crate::util::{Scratch, par_map};
@@ -54,19 +61,66 @@ impl Rec {
     }
 }
 
-const PRODUCTS: [&str; 3] = ["wow", "a_b", "a.b"];
-const VERSIONS: [&str; 7] = ["1.0.0", "1", "1 0", "a|b", "x\ny", "##", "v\u{e9}"];
-const BUILDS: [&str; 7] = ["1", "0", "65536", "4294967296", "01", "-1", "12a"];
+/// Product names: plain ones, and the classes that mean something to the protocols that have
+/// to carry them — the command separator `/`, the BPSV comment mark `#` in first position, white
+/// space at an edge (the BPSV reader and the command reader trim), a pure-dot path segment, and a
+/// name that makes the request line longer than 1 KiB.
+fn products() -> Vec<String> {
+    let mut v: Vec<String> = ["wow", "a_b", "a.b", "#b", "a/b", " a", ".."].iter().map(|s| (*s).to_string()).collect();
+    v.push("p".repeat(LONG_PRODUCT));
+    v
+}
+const LONG_PRODUCT: usize = 1100;
+/// Versions: plain, separators of BPSV (`|`, line break, comment mark), non-ASCII, and the
+/// delimiters of the V1 envelope (`--RibbitBoundary`, a `Checksum: ` line lookalike).
+const VERSIONS: [&str; 10] = ["1.0.0", "1", "1 0", "a|b", "x\ny", "##", "v\u{e9}", "1.0--RibbitBoundary--x", "--RibbitBoundary", "Checksum: 0"];
+/// Builds: small, the u32 / i64 / u64 boundaries of the `BuildId!DEC:4` column, non-canonical and
+/// non-decimal forms.
+const BUILDS: [&str; 11] = ["1", "0", "65536", "4294967296", "9223372036854775807", "9223372036854775808", "99999999999999999999", "01", "-1", "12a", "+1"];
 
 fn keyrings() -> Vec<Option<String>> {
     vec![None, Some(H2.to_string()), Some("zz".to_string())]
 }
 
-/// Seconds since epoch for the timestamps used here (fixed small set; hand-computed offsets).
+/// Debug form of a string, abbreviated when long (stable: no content beyond the length).
+fn show(s: &str) -> String {
+    if s.len() > 64 { format!("<{:?}×{}>", s.chars().next().unwrap_or(' '), s.chars().count()) } else { format!("{s:?}") }
+}
+
+fn leap(y: i64) -> bool {
+    (y % 4 == 0 && y % 100 != 0) || y % 400 == 0
+}
+
+/// Days from 1970-01-01 to y-m-d, by counting whole years and months (a boring reference,
+/// independent of the closed-form era arithmetic in the repository). Years ≥ 1970 only.
+fn days_from_1970(y: i64, m: i64, d: i64) -> Option<i64> {
+    if y < 1970 || !(1..=12).contains(&m) || d < 1 {
+        return None;
+    }
+    let mlen = [31, if leap(y) { 29 } else { 28 }, 31, 30, 31, 30, 31, 31, 30, 31, 30, 31];
+    if d > mlen[(m - 1) as usize] {
+        return None;
+    }
+    let mut days = 0;
+    for yy in 1970..y {
+        days += if leap(yy) { 366 } else { 365 };
+    }
+    for mm in 1..m {
+        days += mlen[(mm - 1) as usize];
+    }
+    Some(days + d - 1)
+}
+
+/// Seconds since epoch for the timestamps used here: YYYY-MM-DDTHH:MM:SS±HH:MM.
 fn actual_time(ts: &str) -> Option<i64> {
-    // format: YYYY-MM-DDTHH:MM:SS+HH:MM with fixed date 2024-01-01/02
+    if ts.len() != 25 {
+        return None;
+    }
     let (dt, off) = ts.split_at(19);
+    let year: i64 = dt[0..4].parse().ok()?;
+    let month: i64 = dt[5..7].parse().ok()?;
     let day: i64 = dt[8..10].parse().ok()?;
+    let day = days_from_1970(year, month, day)?;
     let h: i64 = dt[11..13].parse().ok()?;
     let m: i64 = dt[14..16].parse().ok()?;
     let s: i64 = dt[17..19].parse().ok()?;
@@ -79,19 +133,31 @@ fn actual_time(ts: &str) -> Option<i64> {
 #[derive(Clone, Debug)]
 pub struct Db {
     pub recs: Vec<Rec>,
+    /// identifies the database *class* (goes into signatures)
     pub label: String,
+    /// the exact instance, for details (empty: the label says it all)
+    pub note: String,
+}
+
+impl Db {
+    fn new(label: String, recs: Vec<Rec>) -> Db {
+        Db { recs, label, note: String::new() }
+    }
+    fn describe(&self) -> String {
+        if self.note.is_empty() { self.label.clone() } else { format!("{} [{}]", self.label, self.note) }
+    }
 }
 
 fn single_record_dbs() -> Vec<Db> {
     let mut out = Vec::new();
-    for p in PRODUCTS {
+    for p in &products() {
         for v in VERSIONS {
             for b in BUILDS {
                 for k in keyrings() {
                     for pc in [None, Some(H1.to_string())] {
                         for cp in [None, Some("tpr/x".to_string())] {
-                            let r = Rec { product: p.into(), version: v.into(), build: b.into(), keyring: k.clone(), product_config: pc.clone(), cdn_path: cp.clone(), ..Rec::base() };
-                            out.push(Db { label: format!("1rec product={p:?} version={v:?} build={b:?} keyring={k:?} product_config={} cdn_path={}", pc.is_some(), cp.is_some()), recs: vec![r] });
+                            let r = Rec { product: p.clone(), version: v.into(), build: b.into(), keyring: k.clone(), product_config: pc.clone(), cdn_path: cp.clone(), ..Rec::base() };
+                            out.push(Db::new(format!("1rec product={} version={v:?} build={b:?} keyring={k:?} product_config={} cdn_path={}", show(p), pc.is_some(), cp.is_some()), vec![r]));
                         }
                     }
                 }
@@ -116,20 +182,92 @@ fn multi_record_dbs() -> Vec<Db> {
             if swap {
                 std::mem::swap(&mut a, &mut b);
             }
-            out.push(Db { label: format!("2rec same product, times {name}, file order swapped={swap}"), recs: vec![a, b] });
+            out.push(Db::new(format!("2rec same product, times {name}, file order swapped={swap}"), vec![a, b]));
         }
     }
     // two products
-    out.push(Db { label: "2rec two products".into(), recs: vec![Rec::base(), Rec { product: "a_b".into(), version: "9.9".into(), build: "9".into(), ..Rec::base() }] });
+    out.push(Db::new("2rec two products".into(), vec![Rec::base(), Rec { product: "a_b".into(), version: "9.9".into(), build: "9".into(), ..Rec::base() }]));
     // three records, newest in the middle
-    out.push(Db {
-        label: "3rec newest in the middle".into(),
-        recs: vec![
+    out.push(Db::new(
+        "3rec newest in the middle".into(),
+        vec![
             Rec { version: "1".into(), build: "1".into(), build_time: "2024-01-01T00:00:00+00:00".into(), ..Rec::base() },
             Rec { version: "3".into(), build: "3".into(), build_time: "2024-01-01T09:00:00+00:00".into(), ..Rec::base() },
             Rec { version: "2".into(), build: "2".into(), build_time: "2024-01-01T03:00:00+00:00".into(), ..Rec::base() },
         ],
-    });
+    ));
+    out
+}
+
+/// The date grid for "several builds per product with any timestamps": every month of a leap
+/// year, the months around the year change of the neighbouring years, month ends, both sides of
+/// a leap day and of the year change, a century leap year.
+fn date_grid(tier: Tier) -> Vec<(i64, i64, i64)> {
+    let mut d: Vec<(i64, i64, i64)> = Vec::new();
+    if tier == Tier::Thorough {
+        // first, middle and last day of every month of seven years (leap, non-leap, the
+        // century leap year 2000 and the non-leap century year 2100)
+        for y in [1999, 2000, 2023, 2024, 2025, 2099, 2100] {
+            for m in 1..=12 {
+                let last = (28..=31).rev().find(|dd| days_from_1970(y, m, *dd).is_some()).unwrap_or(28);
+                for dd in [1, 15, last] {
+                    d.push((y, m, dd));
+                }
+            }
+        }
+        return d;
+    }
+    for m in 1..=12 {
+        d.push((2024, m, 15));
+    }
+    for y in [2023, 2025] {
+        for m in [1, 2, 3, 11, 12] {
+            d.push((y, m, 15));
+        }
+    }
+    d.extend([(2023, 12, 31), (2024, 1, 1), (2024, 1, 31), (2024, 2, 1), (2024, 2, 28), (2024, 2, 29), (2024, 3, 1), (2024, 12, 31), (2025, 1, 1), (2025, 2, 28), (2025, 3, 1), (2000, 2, 29), (2000, 3, 1), (1999, 12, 31)]);
+    d
+}
+
+fn month_class(m: i64) -> &'static str {
+    match m {
+        1 => "Jan",
+        2 => "Feb",
+        _ => "Mar..Dec",
+    }
+}
+
+/// Every ordered pair (older, newer) of distinct dates of the grid as a two-build product, in both
+/// file orders (noon UTC, so that only the calendar decides); plus three-build products over
+/// {January, mid-year, next January}. The label (→ signature) is the calendar *class* of the
+/// pair, the note carries the dates.
+fn date_dbs(tier: Tier) -> Vec<Db> {
+    let grid = date_grid(tier);
+    let ts = |(y, m, d): (i64, i64, i64)| format!("{y:04}-{m:02}-{d:02}T12:00:00+00:00");
+    let mut out = Vec::new();
+    for &a in &grid {
+        for &b in &grid {
+            let (Some(da), Some(db)) = (days_from_1970(a.0, a.1, a.2), days_from_1970(b.0, b.1, b.2)) else { continue };
+            if da >= db {
+                continue;
+            }
+            for swap in [false, true] {
+                let old = Rec { version: "1.0.0".into(), build: "100".into(), build_time: ts(a), ..Rec::base() };
+                let new = Rec { version: "2.0.0".into(), build: "200".into(), build_time: ts(b), ..Rec::base() };
+                let recs = if swap { vec![new, old] } else { vec![old, new] };
+                let mut db = Db::new(format!("2rec same product, dates: older build in {}, newer build in {} {} year(s) later", month_class(a.1), month_class(b.1), b.0 - a.0), recs);
+                db.note = format!("older {} newer {} newer-first-in-file={swap}", ts(a), ts(b));
+                out.push(db);
+            }
+        }
+    }
+    for (y, perm) in [(2023, [0usize, 1, 2]), (2024, [1, 2, 0]), (2024, [2, 0, 1]), (2023, [2, 1, 0])] {
+        let three = [(y, 1, 20), (y, 9, 10), (y + 1, 1, 5)];
+        let recs: Vec<Rec> = perm.iter().map(|&i| Rec { version: format!("{}.0.0", i + 1), build: format!("{}", (i + 1) * 100), build_time: ts(three[i]), ..Rec::base() }).collect();
+        let mut db = Db::new("3rec same product, dates: January, September, next January".to_string(), recs);
+        db.note = format!("year {y}, file order {perm:?}");
+        out.push(db);
+    }
     out
 }
 
@@ -165,6 +303,21 @@ fn client_parse(raw: &[u8]) -> Result<BpsvDocument, String> {
         <BpsvDocument as cascette_formats::CascFormat>::parse(raw).map_err(|e| e.to_string())
     }
 }
+
+/// The project's second V1 client path: the public, signature-aware `v1_mime` module (format
+/// detection, checksum verification, MIME part extraction), then the same BPSV reader.
+fn client_parse_v1_mime_module(raw: &[u8]) -> Result<BpsvDocument, String> {
+    if cascette_protocol::v1_mime::is_v1_mime_response(raw) {
+        let r = cascette_protocol::v1_mime::parse_v1_mime_response(raw, None).map_err(|e| e.to_string())?;
+        <BpsvDocument as cascette_formats::CascFormat>::parse(r.data.as_bytes()).map_err(|e| e.to_string())
+    } else {
+        <BpsvDocument as cascette_formats::CascFormat>::parse(raw).map_err(|e| e.to_string())
+    }
+}
+
+type Parser = fn(&[u8]) -> Result<BpsvDocument, String>;
+/// (suffix of the transport label in signatures, parser)
+const PARSERS: [(&str, Parser); 2] = [("", client_parse), ("@v1_mime-module", client_parse_v1_mime_module)];
 
 /// Compare the parsed document with the expected record. Returns Err((kind, field, detail)).
 fn judge(doc: &BpsvDocument, endpoint: &str, cands: &[&Rec]) -> Result<(), (String, String, String)> {
@@ -205,23 +358,13 @@ fn judge(doc: &BpsvDocument, endpoint: &str, cands: &[&Rec]) -> Result<(), (Stri
     Err(last_err.unwrap_or_else(|| ("no-candidate".into(), String::new(), "no record for product".into())))
 }
 
-fn field_class(db: &Db, field: &str) -> String {
-    // signature helper: which alphabet value of the offending field
-    let r = &db.recs[0];
-    match field {
-        "VersionsName" => format!("version={:?}", r.version),
-        "BuildId" => format!("build={:?}", r.build),
-        "KeyRing" => format!("keyring={:?}", r.keyring),
-        _ => field.to_string(),
-    }
-}
-
 fn function_level(rep: &Report, dbs: &[Db]) {
     let results = par_map(dbs.len(), |i| {
         let db = &dbs[i];
-        let Some((state, _sc)) = load_state(db) else { return (false, Vec::new(), 0u64) };
+        let Some((state, _sc)) = load_state(db) else { return (false, Vec::new(), 0u64, Vec::new()) };
         let mut vio = Vec::new();
         let mut evals = 0u64;
+        let mut served: Vec<String> = Vec::new();
         let mut products: Vec<&str> = db.recs.iter().map(|r| r.product.as_str()).collect();
         products.sort_unstable();
         products.dedup();
@@ -243,39 +386,56 @@ fn function_level(rep: &Report, dbs: &[Db]) {
                         }
                         Ok(Ok(t)) => t,
                     };
-                    match crate::util::catch(|| client_parse(text.as_bytes())) {
-                        Err(pmsg) => vio.push(("client-panic".to_string(), format!("client-panic|{ver}"), format!("client parse of the response to {cmd:?} panicked: {pmsg}"))),
-                        Ok(Err(e)) => {
-                            // which field made it unreadable? sign by the non-base field values of the newest record
-                            let r = cands[0];
-                            let mut why = Vec::new();
-                            if r.version != "1.0.0" {
-                                why.push(format!("version={:?}", r.version));
+                    for (psuffix, parser) in PARSERS {
+                        let tr = format!("{ver}{psuffix}");
+                        match crate::util::catch(|| parser(text.as_bytes())) {
+                            Err(pmsg) => vio.push(("client-panic".to_string(), format!("client-panic|{tr}"), format!("{}: client parse of the response to {} panicked: {pmsg}", db.describe(), show(&cmd)))),
+                            Ok(Err(e)) => {
+                                vio.push(("client-rejects-response".to_string(), format!("client-rejects-response|{tr}"), format!("{}: response to {} is rejected by the client: {e}", db.describe(), show(&cmd))));
                             }
-                            if r.build != "1" {
-                                why.push(format!("build={:?}", r.build));
-                            }
-                            if r.keyring.as_deref().is_some_and(|k| k != H2) {
-                                why.push(format!("keyring={:?}", r.keyring));
-                            }
-                            // only fields that this endpoint carries can be the cause
-                            if ep == "cdns" {
-                                why.clear();
-                                why.push("cdns".into());
-                            }
-                            vio.push(("client-rejects-response".to_string(), format!("client-rejects-response|{ver}|{}", why.join(",")), format!("{}: response to {cmd:?} is rejected by the client: {e}", db.label)));
-                        }
-                        Ok(Ok(doc)) => {
-                            if let Err((kind, field, detail)) = judge(&doc, ep, &cands) {
-                                let fc = if db.recs.len() == 1 { field_class(db, &field) } else { db.label.clone() };
-                                vio.push((kind.clone(), format!("{kind}|{ver}|{field}|{fc}"), format!("{}: {cmd}: {detail}", db.label)));
+                            Ok(Ok(doc)) => {
+                                if ep == "versions" && psuffix.is_empty() {
+                                    // vacuity guard material: position in the file of the record that was served
+                                    let b = doc.rows().first().and_then(|r| r.get_raw_by_name("BuildId", doc.schema())).unwrap_or("");
+                                    served.push(format!("{}/{}", db.recs.iter().position(|r| r.build == b).map_or("?".to_string(), |i| i.to_string()), db.recs.len()));
+                                }
+                                if let Err((kind, field, detail)) = judge(&doc, ep, &cands) {
+                                    vio.push((kind.clone(), format!("{kind}|{tr}|{field}"), format!("{}: {}: {detail}", db.describe(), show(&cmd))));
+                                }
                             }
                         }
                     }
                 }
             }
         }
-        (true, vio, evals)
+        // v1/summary lists the products of the database — no more, no fewer
+        {
+            evals += 1;
+            let mut want: Vec<String> = db.recs.iter().map(|r| r.product.clone()).collect();
+            want.sort();
+            want.dedup();
+            match crate::util::catch(|| cascette_ribbit::tcp::handlers::handle_command("v1/summary", &state)) {
+                Err(pmsg) => vio.push(("server-panic".to_string(), "server-panic|v1".to_string(), format!("handle_command(\"v1/summary\") panicked: {pmsg}"))),
+                Ok(Err(e)) => vio.push(("server-error".to_string(), "server-error|v1|summary".to_string(), format!("{}: v1/summary on an accepted database got an error: {e}", db.describe()))),
+                Ok(Ok(text)) => {
+                    for (psuffix, parser) in PARSERS {
+                        let tr = format!("v1{psuffix}");
+                        match crate::util::catch(|| parser(text.as_bytes())) {
+                            Err(pmsg) => vio.push(("client-panic".to_string(), format!("client-panic|{tr}"), format!("{}: client parse of the response to v1/summary panicked: {pmsg}", db.describe()))),
+                            Ok(Err(e)) => vio.push(("client-rejects-response".to_string(), format!("client-rejects-response|{tr}"), format!("{}: response to v1/summary is rejected by the client: {e}", db.describe()))),
+                            Ok(Ok(doc)) => {
+                                let mut got: Vec<String> = doc.rows().iter().map(|r| r.get_raw_by_name("Product", doc.schema()).unwrap_or("<no Product column>").to_string()).collect();
+                                got.sort();
+                                if got != want {
+                                    vio.push(("summary-mismatch".to_string(), format!("summary-mismatch|{tr}"), format!("{}: v1/summary read back by the client lists [{}], the database holds [{}]", db.describe(), got.iter().map(|x| show(x)).collect::<Vec<_>>().join(", "), want.iter().map(|x| show(x)).collect::<Vec<_>>().join(", "))));
+                                }
+                            }
+                        }
+                    }
+                }
+            }
+        }
+        (true, vio, evals, served)
     });
     let mut accepted = 0u64;
     let mut evals = 0u64;
@@ -290,7 +450,7 @@ fn function_level(rep: &Report, dbs: &[Db]) {
         let b = Rec::base();
         let mut d = Vec::new();
         if r.product != b.product {
-            d.push(format!("product={:?}", r.product));
+            d.push(format!("product={}", show(&r.product)));
         }
         if r.version != b.version {
             d.push(format!("version={:?}", r.version));
@@ -312,14 +472,14 @@ fn function_level(rep: &Report, dbs: &[Db]) {
     let mut order: Vec<usize> = (0..dbs.len()).collect();
     order.sort_by_key(|i| devs(&dbs[*i]).len());
     let mut failing: Vec<(String, Vec<String>)> = Vec::new(); // (kind|transport|endpoint-class, deviation set)
-    let mut results: Vec<Option<(bool, Vec<(String, String, String)>, u64)>> = results.into_iter().map(Some).collect();
+    let mut results: Vec<Option<(bool, Vec<(String, String, String)>, u64, Vec<String>)>> = results.into_iter().map(Some).collect();
     for i in order {
-        let (ok, vio, e) = results[i].take().unwrap();
+        let (ok, vio, e, served) = results[i].take().unwrap();
         if ok {
             accepted += 1;
         }
         evals += e;
-        rep.add_outcome(crate::util::fnv64_str(&format!("{ok}|{}", vio.len())));
+        rep.add_outcome(crate::util::fnv64_str(&format!("{ok}|{}|{served:?}", vio.len())));
         let d = devs(&dbs[i]);
         for (kind, sig, detail) in vio {
             // sig = kind|transport|...: the first two components identify the clause and transport
@@ -333,7 +493,7 @@ fn function_level(rep: &Report, dbs: &[Db]) {
                 failing.push((head.clone(), d.clone()));
             }
             let sig2 = format!("{head}|{}", d.join(","));
-            rep.violation(&kind, &sig2, json!({"level": "function", "db": dbs[i].label, "records": dbs[i].recs.iter().enumerate().map(|(j, r)| r.json(j as u64 + 1)).collect::<Vec<_>>()}), &detail);
+            rep.violation(&kind, &sig2, json!({"level": "function", "db": dbs[i].describe(), "records": dbs[i].recs.iter().enumerate().map(|(j, r)| r.json(j as u64 + 1)).collect::<Vec<_>>()}), &detail);
         }
     }
     rep.add_evaluations(evals);
@@ -402,17 +562,18 @@ async fn socket_level_db(db: Db) -> Vec<(String, String, String)> {
     products.dedup();
     for p in &products {
         let cands = newest(&db, p);
+        let ps = show(p);
         for ep in ["versions", "cdns", "bgdl"] {
             // TCP v1 and v2 through the real RibbitClient
             for ver in ["v1", "v2"] {
                 let rc = cascette_protocol::RibbitClient::new(format!("tcp://127.0.0.1:{}", srv.tcp_port)).expect("ribbit client");
                 let r = tokio::time::timeout(Duration::from_secs(5), rc.query(&format!("{ver}/products/{p}/{ep}"))).await;
                 match r {
-                    Err(_) => vio.push(("no-answer".into(), format!("no-answer|tcp-{ver}"), format!("{}: TCP {ver} {p}/{ep}: no answer within 5 s", db.label))),
-                    Ok(Err(e)) => vio.push(("client-rejects-response".into(), format!("socket|client-rejects-response|tcp-{ver}|{}", sig_fields(&cands, ep)), format!("{}: TCP {ver} {p}/{ep}: {e}", db.label))),
+                    Err(_) => vio.push(("no-answer".into(), format!("no-answer|tcp-{ver}"), format!("{}: TCP {ver} {ps}/{ep}: no answer within 5 s", db.describe()))),
+                    Ok(Err(e)) => vio.push(("client-rejects-response".into(), format!("socket|client-rejects-response|tcp-{ver}|{}", sig_fields(&db, &cands, ep)), format!("{}: TCP {ver} {ps}/{ep}: {e}", db.describe()))),
                     Ok(Ok(doc)) => {
                         if let Err((kind, field, detail)) = judge(&doc, ep, &cands) {
-                            vio.push((kind.clone(), format!("socket|{kind}|tcp-{ver}|{field}|{}", sig_fields(&cands, ep)), format!("{}: TCP {ver} {p}/{ep}: {detail}", db.label)));
+                            vio.push((kind.clone(), format!("socket|{kind}|tcp-{ver}|{field}|{}", sig_fields(&db, &cands, ep)), format!("{}: TCP {ver} {ps}/{ep}: {detail}", db.describe())));
                         }
                     }
                 }
@@ -421,36 +582,43 @@ async fn socket_level_db(db: Db) -> Vec<(String, String, String)> {
             let tc = cascette_protocol::TactClient::new(format!("http://127.0.0.1:{}", srv.http_port), false).expect("tact client");
             let r = tokio::time::timeout(Duration::from_secs(5), tc.query(&format!("v1/products/{p}/{ep}"))).await;
             match r {
-                Err(_) => vio.push(("no-answer".into(), "no-answer|http".into(), format!("{}: HTTP {p}/{ep}: no answer within 5 s", db.label))),
-                Ok(Err(e)) => vio.push(("client-rejects-response".into(), format!("socket|client-rejects-response|http|{}", sig_fields(&cands, ep)), format!("{}: HTTP {p}/{ep}: {e}", db.label))),
+                Err(_) => vio.push(("no-answer".into(), "no-answer|http".into(), format!("{}: HTTP {ps}/{ep}: no answer within 5 s", db.describe()))),
+                Ok(Err(e)) => vio.push(("client-rejects-response".into(), format!("socket|client-rejects-response|http|{}", sig_fields(&db, &cands, ep)), format!("{}: HTTP {ps}/{ep}: {e}", db.describe()))),
                 Ok(Ok(doc)) => {
                     if let Err((kind, field, detail)) = judge(&doc, ep, &cands) {
-                        vio.push((kind.clone(), format!("socket|{kind}|http|{field}|{}", sig_fields(&cands, ep)), format!("{}: HTTP {p}/{ep}: {detail}", db.label)));
+                        vio.push((kind.clone(), format!("socket|{kind}|http|{field}|{}", sig_fields(&db, &cands, ep)), format!("{}: HTTP {ps}/{ep}: {detail}", db.describe())));
                     }
                 }
             }
         }
     }
     if srv.tcp_task.is_finished() {
-        vio.push(("server-died".into(), "server-died|tcp".into(), format!("{}: the TCP server task ended", db.label)));
+        vio.push(("server-died".into(), "server-died|tcp".into(), format!("{}: the TCP server task ended", db.describe())));
     }
     if srv.http_task.is_finished() {
-        vio.push(("server-died".into(), "server-died|http".into(), format!("{}: the HTTP server task ended", db.label)));
+        vio.push(("server-died".into(), "server-died|http".into(), format!("{}: the HTTP server task ended", db.describe())));
     }
     srv.tcp_task.abort();
     srv.http_task.abort();
     vio
 }
 
-fn sig_fields(cands: &[&Rec], ep: &str) -> String {
+fn sig_fields(db: &Db, cands: &[&Rec], ep: &str) -> String {
     if cands.len() != 1 {
         return "tie".into();
     }
     let r = cands[0];
-    if ep == "cdns" {
-        return format!("cdn_path={}", r.cdn_path.is_some());
-    }
     let mut why = Vec::new();
+    if db.recs.len() > 1 {
+        why.push(db.label.clone());
+    }
+    if r.product != "wow" {
+        why.push(format!("product={}", show(&r.product)));
+    }
+    if ep == "cdns" {
+        why.push(format!("cdn_path={}", r.cdn_path.is_some()));
+        return why.join(",");
+    }
     if r.version != "1.0.0" && r.version != "2.0.0" {
         why.push(format!("version={:?}", r.version));
     }
@@ -540,6 +708,104 @@ async fn robustness_scenario(tcp_port: u16, bads: Vec<Bad>, order: Vec<usize>, c
     }
 }
 
+/// Outcome of one split-request scenario.
+enum SplitOutcome {
+    /// the answer parsed and equals the database
+    Good,
+    /// could not be judged without depending on timing (second segment written too late, or
+    /// no end of the answer within the deadline)
+    Unjudged(String),
+    /// (what, detail)
+    Bad(String, String),
+}
+
+/// A well-formed request line delivered in two TCP segments: `line[..cut]`, a pause in which the
+/// server task runs and sees only the first segment, `line[cut..]`, write side closed (as
+/// `RibbitClient` does); the answer is read to EOF and parsed by the client's code.
+/// The verdict does not depend on timing for a correct server: it waits for the line terminator
+/// (10 s read timeout; the scenario is unjudged if the two writes were more than 5 s apart).
+async fn split_request(tcp_port: u16, line: Vec<u8>, cut: usize, endpoint: &'static str, db: Arc<Db>) -> SplitOutcome {
+    let Ok(mut s) = tokio::net::TcpStream::connect(("127.0.0.1", tcp_port)).await else {
+        return SplitOutcome::Bad("connect-failed".into(), "the server does not accept connections".into());
+    };
+    let _ = s.set_nodelay(true);
+    let t0 = std::time::Instant::now();
+    if s.write_all(&line[..cut]).await.is_err() || s.flush().await.is_err() {
+        return SplitOutcome::Bad("no-answer".into(), "the server closed the connection while the first segment was being written".into());
+    }
+    tokio::time::sleep(Duration::from_millis(150)).await;
+    // a server that has already answered/closed makes these writes fail or not: either way the
+    // answer (or its absence) is what is judged
+    let _ = s.write_all(&line[cut..]).await;
+    let _ = s.flush().await;
+    if t0.elapsed() > Duration::from_secs(5) {
+        return SplitOutcome::Unjudged("the two segments were written more than 5 s apart".into());
+    }
+    let _ = s.shutdown().await;
+    let mut buf = Vec::new();
+    match tokio::time::timeout(Duration::from_secs(30), s.read_to_end(&mut buf)).await {
+        Err(_) => return SplitOutcome::Unjudged("no end of the answer within 30 s".into()),
+        Ok(Err(_)) if buf.is_empty() => return SplitOutcome::Bad("no-answer".into(), "the server reset the connection without an answer".into()),
+        _ => {}
+    }
+    if buf.is_empty() {
+        return SplitOutcome::Bad("no-answer".into(), "the server closed the connection without an answer".into());
+    }
+    match crate::util::catch(|| client_parse(&buf)) {
+        Err(p) => SplitOutcome::Bad("client-panic".into(), format!("client parse panicked: {p}")),
+        Ok(Err(e)) => SplitOutcome::Bad("client-rejects-response".into(), format!("the client rejects the answer: {e}")),
+        Ok(Ok(doc)) => {
+            if endpoint == "summary" {
+                let got: Vec<&str> = doc.rows().iter().filter_map(|r| r.get_raw_by_name("Product", doc.schema())).collect();
+                if got == ["wow"] { SplitOutcome::Good } else { SplitOutcome::Bad("summary-mismatch".into(), format!("summary lists {got:?}")) }
+            } else {
+                match judge(&doc, endpoint, &newest(&db, "wow")) {
+                    Ok(()) => SplitOutcome::Good,
+                    Err((kind, _, detail)) => SplitOutcome::Bad(kind, detail),
+                }
+            }
+        }
+    }
+}
+
+/// Every cut position of every request line of the list, concurrently.
+async fn split_request_scenarios(tcp_port: u16, tier: Tier) -> (u64, u64, Vec<(String, String, String)>) {
+    let db = Arc::new(Db::new("base".into(), vec![Rec::base()]));
+    let mut lines: Vec<(&'static str, &'static str, &'static str)> = vec![("v1/products/wow/versions", "\r\n", "versions"), ("v2/products/wow/cdns", "\r\n", "cdns"), ("v1/summary", "\r\n", "summary")];
+    if tier == Tier::Thorough {
+        lines.extend([("v2/products/wow/versions", "\n", "versions"), ("v1/products/wow/bgdl", "\n", "bgdl"), ("v1/products/wow/cdns", "\r\n", "cdns"), ("v2/products/wow/bgdl", "\r\n", "bgdl")]);
+    }
+    let mut scen = Vec::new();
+    for (cmd, term, ep) in lines {
+        let line = format!("{cmd}{term}").into_bytes();
+        for cut in 1..line.len() {
+            scen.push((cmd, term, ep, line.clone(), cut));
+        }
+    }
+    let results: Vec<(&'static str, &'static str, usize, SplitOutcome)> = futures::stream::iter(scen.into_iter().map(|(cmd, term, ep, line, cut)| {
+        let db = db.clone();
+        async move { (cmd, term, cut, split_request(tcp_port, line, cut, ep, db).await) }
+    }))
+    .buffer_unordered(48)
+    .collect()
+    .await;
+    let mut vio = Vec::new();
+    let (mut n, mut unjudged) = (0u64, 0u64);
+    for (cmd, term, cut, o) in results {
+        n += 1;
+        match o {
+            SplitOutcome::Good => {}
+            SplitOutcome::Unjudged(_) => unjudged += 1,
+            SplitOutcome::Bad(what, detail) => {
+                let ver = &cmd[..2];
+                let class = if cut < cmd.len() { "cut-inside-the-command" } else { "cut-at-or-inside-the-line-terminator" };
+                vio.push(("split-request".to_string(), format!("split-request|tcp-{ver}|{class}|{what}"), format!("request line {:?} sent as {:?} + 150 ms + {:?}: {detail}", format!("{cmd}{term}"), &format!("{cmd}{term}")[..cut], &format!("{cmd}{term}")[cut..])));
+            }
+        }
+    }
+    (n, unjudged, vio)
+}
+
 fn permutations(n: usize) -> Vec<Vec<usize>> {
     fn rec(cur: &mut Vec<usize>, used: &mut Vec<bool>, out: &mut Vec<Vec<usize>>) {
         if cur.len() == used.len() {
@@ -563,32 +829,41 @@ fn permutations(n: usize) -> Vec<Vec<usize>> {
 
 pub fn run(tier: Tier, seed: u64) -> i32 {
     let rep = Report::new("C15", tier, seed, Level::ModelChecking);
-    rep.set_rule("(A) every single-record database over product×version×build×keyring×product_config×cdn_path alphabets plus the multi-record time-order databases, restricted to those BuildDatabase::from_file accepts, × product × {versions,cdns,bgdl} × TCP {v1,v2}: server handle_command → client parse → field-by-field comparison with the newest record; (B) real servers and real clients over loopback for a spanning subset of databases × TCP v1/v2 + HTTP, and every multiset of ≤2 (thorough: ordered pairs) misbehaving request classes with one well-formed client in every arrival order, connections held open or closed first; states = scenarios, transitions = requests, traces = scenarios executed");
+    rep.set_rule("(A) every single-record database over product×version×build×keyring×product_config×cdn_path alphabets (products incl. '/', leading '#', edge white space, '..', a 1100-byte name; versions incl. the BPSV and V1-envelope delimiters; builds incl. the u32/i64/u64 boundaries) plus the multi-record time-order databases plus every ordered pair of dates from a date grid (quick: 36 dates — all months, month ends, leap days, year changes; thorough: first/15th/last day of every month of 1999, 2000, 2023, 2024, 2025, 2099, 2100) as a two-build product in both file orders, restricted to those BuildDatabase::from_file accepts, × product × {versions,cdns,bgdl} × TCP {v1,v2} + v1/summary: server handle_command → both client parsers (mime_parser path of RibbitClient, v1_mime module) → field-by-field comparison with the newest record by an independent calendar / product list comparison; (B) real servers and real clients over loopback for a spanning subset of databases × TCP v1/v2 + HTTP, every multiset of ≤2 (thorough: ordered pairs) misbehaving request classes with one well-formed client in every arrival order, connections held open or closed first, and every well-formed request line of a list delivered in two TCP segments at every cut position; states = scenarios, transitions = requests, traces = scenarios executed");
+    rep.assume("a single cut is exhaustive for request segmentation: the server's reader state is the received prefix; the pause between the segments (150 ms) only has to let the server task run once — a correct server's answer does not depend on it");
     rep.assume("'newest' = chronologically newest by the ISO-8601 offset; tied timestamps accept any tied record");
     rep.assume("loopback sockets, plain HTTP; 2 s answer deadline for a well-formed client while misbehaving clients are connected");
     let mut dbs = single_record_dbs();
     dbs.extend(multi_record_dbs());
+    dbs.extend(date_dbs(tier));
     function_level(&rep, &dbs);
 
     // level B
     let mut subset: Vec<Db> = Vec::new();
     let base = Rec::base();
     for v in VERSIONS {
-        subset.push(Db { label: format!("1rec version={v:?}"), recs: vec![Rec { version: v.into(), ..base.clone() }] });
+        subset.push(Db::new(format!("1rec version={v:?}"), vec![Rec { version: v.into(), ..base.clone() }]));
     }
     for b in BUILDS {
-        subset.push(Db { label: format!("1rec build={b:?}"), recs: vec![Rec { build: b.into(), ..base.clone() }] });
+        subset.push(Db::new(format!("1rec build={b:?}"), vec![Rec { build: b.into(), ..base.clone() }]));
     }
     for k in keyrings() {
-        subset.push(Db { label: format!("1rec keyring={k:?}"), recs: vec![Rec { keyring: k, product_config: Some(H1.into()), cdn_path: Some("tpr/x".into()), ..base.clone() }] });
+        subset.push(Db::new(format!("1rec keyring={k:?}"), vec![Rec { keyring: k, product_config: Some(H1.into()), cdn_path: Some("tpr/x".into()), ..base.clone() }]));
     }
-    for p in PRODUCTS {
-        subset.push(Db { label: format!("1rec product={p:?}"), recs: vec![Rec { product: p.into(), ..base.clone() }] });
+    for p in &products() {
+        subset.push(Db::new(format!("1rec product={}", show(p)), vec![Rec { product: p.clone(), ..base.clone() }]));
     }
     subset.extend(multi_record_dbs());
+    // one database of every calendar class of the date pairs / triples
+    let mut seen_class = std::collections::BTreeSet::new();
+    for db in date_dbs(Tier::Quick) {
+        if seen_class.insert(db.label.clone()) {
+            subset.push(db);
+        }
+    }
     let rt = tokio::runtime::Builder::new_multi_thread().worker_threads(8).enable_all().build().expect("runtime");
     let n_subset = subset.len();
-    let labels: Vec<String> = subset.iter().map(|d| d.label.clone()).collect();
+    let labels: Vec<String> = subset.iter().map(Db::describe).collect();
     let sock_results: Vec<Vec<(String, String, String)>> = rt.block_on(async { futures::stream::iter(subset.into_iter().map(socket_level_db)).buffered(8).collect().await });
     for (i, vio) in sock_results.into_iter().enumerate() {
         rep.add_outcome(crate::util::fnv64_str(&format!("sock|{}", vio.len())));
@@ -603,8 +878,9 @@ pub fn run(tier: Tier, seed: u64) -> i32 {
     rep.bump("socket_level_databases", n_subset as u64);
 
     // robustness
+    let mut split_counts = (0u64, 0u64);
     let robust: (u64, Vec<(String, String, String)>) = rt.block_on(async {
-        let db = Db { label: "base".into(), recs: vec![Rec::base()] };
+        let db = Db::new("base".into(), vec![Rec::base()]);
         let Some((state, _sc)) = load_state(&db) else { return (0, vec![("machinery".into(), "machinery".into(), "base database rejected".into())]) };
         let Some(srv) = start_servers(state).await else { return (0, vec![("machinery".into(), "machinery".into(), "could not start servers".into())]) };
         let mut vio = Vec::new();
@@ -645,6 +921,10 @@ pub fn run(tier: Tier, seed: u64) -> i32 {
                 vio.push((kind.clone(), format!("{kind}|bad={}", classes.join("+")), format!("bad clients {b:?}, arrival order {o:?} (last index = good client), closed first = {c}: {detail}")));
             }
         }
+        // well-formed request lines that arrive in two segments
+        let (n_split, unjudged_split, split_vio) = split_request_scenarios(port, tier).await;
+        vio.extend(split_vio);
+        split_counts = (n_split, unjudged_split);
         // the server must still be alive and answering
         let rc = cascette_protocol::RibbitClient::new(format!("tcp://127.0.0.1:{port}")).expect("client");
         if tokio::time::timeout(Duration::from_secs(3), rc.query("v1/products/wow/versions")).await.map(|r| r.is_ok()) != Ok(true) || srv.tcp_task.is_finished() {
@@ -663,14 +943,30 @@ pub fn run(tier: Tier, seed: u64) -> i32 {
         }
     }
     rep.bump("robustness_scenarios", robust.0);
-    rep.add_evaluations(robust.0 + n_subset as u64 * 9);
-    rep.add_nontrivial_count(robust.0 + n_subset as u64 * 9);
-    rep.add_states(dbs.len() as u64 + n_subset as u64 + robust.0);
-    rep.add_transitions(dbs.len() as u64 * 6 + n_subset as u64 * 9 + robust.0 * 3);
-    rep.add_traces(dbs.len() as u64 + n_subset as u64 + robust.0);
+    rep.bump("split_request_scenarios", split_counts.0);
+    rep.bump("split_request_scenarios_unjudged_for_timing", split_counts.1);
+    if split_counts.0 == 0 {
+        rep.machinery_error("no split-request scenario ran");
+    } else if split_counts.1 * 2 > split_counts.0 {
+        rep.cap_hit("more than half of the split-request scenarios could not be judged (machine too loaded)");
+    }
+    rep.add_evaluations(robust.0 + split_counts.0 + n_subset as u64 * 9);
+    rep.add_nontrivial_count(robust.0 + split_counts.0 + n_subset as u64 * 9);
+    rep.add_states(dbs.len() as u64 + n_subset as u64 + robust.0 + split_counts.0);
+    rep.add_transitions(dbs.len() as u64 * 7 + n_subset as u64 * 9 + robust.0 * 3 + split_counts.0);
+    rep.add_traces(dbs.len() as u64 + n_subset as u64 + robust.0 + split_counts.0);
     rep.sample(json!({"database": dbs[0].label, "records": [dbs[0].recs[0].json(1)]}));
     rep.sample(json!({"database": multi_record_dbs()[2].label}));
+    if let Some(d) = date_dbs(Tier::Quick).into_iter().find(|d| d.note.contains("2024-01-15") && d.note.contains("2024-09-15")) {
+        rep.sample(json!({"database": d.describe()}));
+    }
+    rep.sample(json!({"split_request": "\"v1/products/wow/ver\" + 150 ms + \"sions\\r\\n\" (every cut position of every request line)"}));
     rep.sample(json!({"robustness": "bad clients [Long8M, NeverTerminated], order [0,2,1], held open"}));
+    // vacuity guard: rejected and accepted databases, and for several builds per product both the
+    // first and a later record of the file must have been seen served
+    if rep.outcomes() < 6 {
+        rep.machinery_error("vacuous: fewer than 6 distinct outcomes (rejected / accepted databases, position of the served record in the file)");
+    }
     rep.finish()
 }
 
@@ -690,7 +986,7 @@ pub fn replay(w: &Value) -> i32 {
                 build_time: r["build_time"].as_str().unwrap_or("").into(),
             })
             .collect();
-        let db = Db { recs, label: "replay".into() };
+        let db = Db::new("replay".into(), recs);
         let rep = Report::new("C15", Tier::Quick, 0, Level::ModelChecking);
         function_level(&rep, &[db]);
         let v = rep.violations_snapshot();
